@@ -25,6 +25,9 @@ type Ctx struct {
 	Start    time.Time
 	Deadline time.Time // soft internal deadline: ends the run with exit 0, exhaustive:false
 	Out      *os.File  // the real stdout (os.Stdout is redirected to /dev/null for the library's own prints)
+	// ReplayKey (check --replay file): only the violation with this key is of interest; the run re-executes the check
+	// at the recorded tier and seed, writes no evidence file and reports whether that violation shows again
+	ReplayKey string
 
 	mu         sync.Mutex
 	violations []Violation
@@ -86,6 +89,9 @@ func (c *Ctx) Expired() bool { return !c.Deadline.IsZero() && time.Now().After(c
 func (c *Ctx) Report(key, what string, replay interface{}) {
 	c.mu.Lock()
 	defer c.mu.Unlock()
+	if c.ReplayKey != "" && key != c.ReplayKey {
+		return
+	}
 	c.loadKnown()
 	for _, f := range c.kf.Findings {
 		if f.Property == c.ID && f.Key == key {
@@ -110,6 +116,9 @@ func (c *Ctx) Report(key, what string, replay interface{}) {
 	dir := filepath.Join(Root, "replays")
 	_ = os.MkdirAll(dir, 0o755)
 	v.Path = filepath.Join(dir, fmt.Sprintf("%s-%d.json", c.ID, n))
+	if c.ReplayKey != "" {
+		v.Path = filepath.Join(dir, fmt.Sprintf("%s-replayed.json", c.ID))
+	}
 	b, _ := json.MarshalIndent(map[string]interface{}{"property": c.ID, "key": key, "what": what, "tier": c.Tier, "seed": c.Seed, "replay": replay}, "", " ")
 	_ = os.WriteFile(v.Path, b, 0o644)
 	c.violations = append(c.violations, v)
@@ -146,6 +155,14 @@ type Evidence struct {
 func (c *Ctx) Finish(level string, cov Coverage, assumptions []string) int {
 	ev := Evidence{PropertyID: c.ID, Tier: c.Tier, Seed: c.Seed, Level: level, Coverage: cov, Assumptions: assumptions,
 		WallS: time.Since(c.Start).Seconds(), Violations: len(c.violations), Known: c.known, Notes: c.notes}
+	if c.ReplayKey != "" {
+		if len(c.violations) > 0 {
+			fmt.Fprintf(c.Out, "%s replay: the recorded violation %q shows again\n", c.ID, c.ReplayKey)
+			return 1
+		}
+		fmt.Fprintf(c.Out, "%s replay: the recorded violation %q does not show on the current tree\n", c.ID, c.ReplayKey)
+		return 0
+	}
 	dir := filepath.Join(Root, "evidence")
 	_ = os.MkdirAll(dir, 0o755)
 	b, merr := json.MarshalIndent(ev, "", " ")
